@@ -184,7 +184,7 @@ def write_adf12(blocks, annotate=True, count_width=5):
     return "".join(L)
 
 
-def gen_adf12(rng, nblocks=None, distinct=True, small=False):
+def gen_adf12(rng, nblocks=None, distinct=True, small=False, equal=None):
     nblocks = nblocks or rng.choice([1, 2, 3, 5])
     expchar = rng.choice("DDE")
     blocks = []
@@ -201,6 +201,8 @@ def gen_adf12(rng, nblocks=None, distinct=True, small=False):
                               rng.choice([1, 4, 6, 7, 18, 24]), rng.choice([1, 2, 6, 7, 12]), rng.choice([1, 5, 6, 7, 12]))
         if small:
             nb, nt, nd, nz, nm = rng.choice([1, 2, 11]), rng.choice([1, 2]), rng.choice([1, 10]), 1, rng.choice([1, 2])
+        if equal:
+            nb = nt = nd = nz = nm = equal          # all five grids of the same length
         b = {"upper": up, "lower": lo, "expchar": expchar, "qefref": tok_e82(rng, -10, -7, expchar),
              "parmref": [tok_e82(rng, 4, 5, expchar), tok_e82(rng, 2, 3, expchar), tok_e82(rng, 12, 14, expchar),
                          tok_e82(rng, 0, 0, expchar), tok_e82(rng, 0, 0, expchar)],
